@@ -1070,6 +1070,14 @@ class FuncContent:
                 self.tokenizer,
                 suggestion=r"Use '\\n' instead of '\n'",
             )
+        if "\r" in self.command[key_pos + 1].string:
+            # a carriage return ends the line of a .mcfunction file as well
+            raise JMCSyntaxException(
+                "Unexpected carriage return in say command",
+                self.command[key_pos + 1],
+                self.tokenizer,
+                suggestion=r"Use '\\r' instead of '\r'",
+            )
         append_commands(self.__commands, f"say {self.command[key_pos + 1].string}")
 
     def __handle_schedule(self, key_pos: int) -> bool:
